@@ -6,8 +6,8 @@ use serde_json::json;
 
 const SYMS: &[u8; 6] = b"ACGTN$";
 
-fn run_one(log: &mut Log, tag: &str, text: &[u8]) {
-    if !log.begin(tag, json!({"text": bytes(text)})) {
+fn run_one(log: &mut Log, tag: &str, text: &[u8], via: u32) {
+    if !log.begin(tag, json!({"text": bytes(text), "via": via})) {
         return;
     }
     let n = text.len();
@@ -28,6 +28,35 @@ fn run_one(log: &mut Log, tag: &str, text: &[u8]) {
     let wm = match wm {
         Some(w) => w,
         None => return,
+    };
+    // queries go to the object, a clone, or a serde round trip through JSON
+    let wm = match via {
+        1 => {
+            let mut c: Option<WaveletMatrix> = None;
+            log.call("clone", json!({}), || {
+                c = Some(wm.clone());
+                json!({})
+            });
+            log.oblige("wm_clone_queried");
+            match c {
+                Some(c) => c,
+                None => return,
+            }
+        }
+        2 => {
+            let mut c: Option<WaveletMatrix> = None;
+            log.call("serde", json!({}), || {
+                let text = serde_json::to_string(&wm).expect("serialize");
+                c = Some(serde_json::from_str(&text).expect("deserialize"));
+                json!({"len": text.len()})
+            });
+            log.oblige("wm_serde_roundtrip_queried");
+            match c {
+                Some(c) => c,
+                None => return,
+            }
+        }
+        _ => wm,
     };
     for &c in SYMS.iter() {
         log.call("rank", json!({"c": c}), || {
@@ -57,7 +86,7 @@ pub fn drive(log: &mut Log) {
             if !log.mine(case) {
                 continue;
             }
-            run_one(log, "ex", t);
+            run_one(log, "ex", t, (case % 3) as u32);
         }
         cur = nxt;
     }
@@ -94,7 +123,7 @@ pub fn drive(log: &mut Log) {
                 }
                 _ => vec![*rng.pick(SYMS); n],
             };
-            run_one(log, "rd", &text);
+            run_one(log, "rd", &text, (case % 3) as u32);
         }
     }
 }
